@@ -17,6 +17,7 @@ package orchestrator
 import (
 	"context"
 	"fmt"
+	"slices"
 
 	"github.com/conduitio/conduit-commons/rollback"
 	"github.com/conduitio/conduit/pkg/connector"
@@ -146,15 +147,23 @@ func (c *ConnectorOrchestrator) Delete(ctx context.Context, id string) error {
 		return err
 	}
 	r.Append(func() error {
-		_, err = c.connectors.Create(ctx, id, conn.Type, conn.Plugin, conn.PipelineID, conn.Config, conn.ProvisionedBy)
-		return err
+		recreated, err := c.connectors.Create(ctx, id, conn.Type, conn.Plugin, conn.PipelineID, conn.Config, conn.ProvisionedBy)
+		if err != nil {
+			return err
+		}
+		// The store side of this rollback is discarded with the transaction;
+		// in memory the re-created instance must carry what Create does not take.
+		recreated.State, recreated.LastActiveConfig, recreated.CreatedAt = conn.State, conn.LastActiveConfig, conn.CreatedAt
+		return nil
 	})
+	connectorIDs := slices.Clone(pl.ConnectorIDs)
 	_, err = c.pipelines.RemoveConnector(ctx, pl.ID, id)
 	if err != nil {
 		return err
 	}
 	r.Append(func() error {
 		_, err := c.pipelines.AddConnector(ctx, pl.ID, id)
+		pl.ConnectorIDs = connectorIDs // AddConnector appends; restore the original position
 		return err
 	})
 	err = txn.Commit()
@@ -198,13 +207,13 @@ func (c *ConnectorOrchestrator) Update(ctx context.Context, id string, plugin st
 		return nil, err
 	}
 
-	oldConfig := conn.Config
+	oldPlugin, oldConfig := conn.Plugin, conn.Config
 	conn, err = c.connectors.Update(ctx, id, plugin, config)
 	if err != nil {
 		return nil, err
 	}
 	r.Append(func() error {
-		_, err = c.connectors.Update(ctx, id, conn.Plugin, oldConfig)
+		_, err = c.connectors.Update(ctx, id, oldPlugin, oldConfig)
 		return err
 	})
 	err = txn.Commit()
